@@ -150,7 +150,7 @@ def random_cases(draw):
 def plan(tier, seed):
     nshards = 16
     max_nodes = 7 if tier == "quick" else 9
-    examples = 60 if tier == "quick" else 800
+    examples = 150 if tier == "quick" else 800
     tasks = [{"engine": "enum", "max_nodes": max_nodes, "index": i, "count": nshards * 2} for i in range(nshards * 2)]
     tasks += [{"engine": "hyp", "examples": examples, "seed": seed * 1000 + i} for i in range(nshards)]
     return tasks
